@@ -200,6 +200,10 @@ type replayFile struct {
 	ShrinkUse int             `json:"shrink_evaluations"`
 	Desc      props.Desc      `json:"description"`
 	LogSHA    string          `json:"event_log_sha256"`
+	// FromSeed: the tape was not recorded (the process died, e.g. killed by
+	// the race detector); the run is regenerated from (verif_seed, run).
+	FromSeed bool   `json:"from_seed,omitempty"`
+	RaceLog  string `json:"race_log,omitempty"`
 }
 
 // ---- worker ----------------------------------------------------------------
@@ -304,6 +308,9 @@ func cmdWorker(args []string) int {
 			t = tape.NewReplay(en.TapeFor(i, tier))
 		} else {
 			t = tape.NewRecording(tape.Mix(*seed, *prop, i))
+		}
+		if *out != "" && raceEnabled {
+			os.WriteFile(*out+".cur", []byte(fmt.Sprint(i)), 0o644)
 		}
 		res, trouble := runOne(p, t, tier)
 		if trouble != "" {
@@ -411,6 +418,19 @@ func shrinkViolation(p props.Property, tier props.Tier, prop, tierS string, seed
 	return rf
 }
 
+// raceSite extracts a stable locator from a race report: the first library
+// function mentioned.
+func raceSite(log string) string {
+	for _, line := range strings.Split(log, "\n") {
+		line = strings.TrimSpace(line)
+		if strings.HasPrefix(line, "github.com/cockroachdb/errors") {
+			line = strings.TrimSuffix(line, "()")
+			return strings.TrimPrefix(strings.TrimPrefix(line, "github.com/cockroachdb/errors"), "/")
+		}
+	}
+	return "unknown-site"
+}
+
 // ---- replay ----------------------------------------------------------------
 
 func cmdReplay(args []string) int {
@@ -433,10 +453,21 @@ func cmdReplay(args []string) int {
 		fmt.Fprintln(os.Stderr, "unknown property", rf.Property)
 		return 2
 	}
-	res, trouble := runOne(p, tape.NewReplay(rf.Tape), parseTier(rf.Tier))
+	var rt *tape.Tape
+	if rf.FromSeed {
+		rt = tape.NewRecording(tape.Mix(rf.VerifSeed, rf.Property, rf.Run))
+	} else {
+		rt = tape.NewReplay(rf.Tape)
+	}
+	res, trouble := runOne(p, rt, parseTier(rf.Tier))
 	if trouble != "" {
 		fmt.Fprintln(os.Stderr, trouble)
 		return 2
+	}
+	if rf.FromSeed {
+		// a race replay: the race detector terminates the process with exit
+		// code 66 when it reproduces; reaching this point means it did not
+		fmt.Printf("tree: %s\nno race detected in this execution (run under the -race build)\n", res.Desc.Tree)
 	}
 	fmt.Printf("tree: %s\ncluster: %v\nroutes: %v\nfaults: %v\nnotes: %v\n", res.Desc.Tree, res.Desc.Cluster, res.Desc.Routes, res.Desc.Faults, res.Desc.Notes)
 	for _, v := range res.Violations {
@@ -511,7 +542,13 @@ func cmdRun(args []string) int {
 	knownPath := fs.String("known", "", "")
 	level := fs.String("level", "exploration", "")
 	shrinkBudget := fs.Int("shrink", 400, "")
+	asProp := fs.String("as", "", "property id to report under (default: -prop)")
+	extra := fs.String("extra", "", "evidence file of a companion layer to embed")
 	fs.Parse(args)
+	outProp := *prop
+	if *asProp != "" {
+		outProp = *asProp
+	}
 	start := time.Now()
 	p := props.Get(*prop)
 	if p == nil {
@@ -550,6 +587,9 @@ func cmdRun(args []string) int {
 			"-offset", fmt.Sprint(k), "-step", fmt.Sprint(*workers), "-runs", fmt.Sprint(*runs),
 			"-deadline", fmt.Sprint(deadline), "-known", *knownPath, "-out", out, "-shrink", fmt.Sprint(*shrinkBudget))
 		cmd.Stderr = os.Stderr
+		if raceEnabled {
+			cmd.Env = append(os.Environ(), "GORACE=halt_on_error=1 exitcode=66 log_path="+filepath.Join(tmp, fmt.Sprintf("race%d", k)))
+		}
 		if err := cmd.Start(); err != nil {
 			fmt.Fprintln(os.Stderr, "start worker:", err)
 			return 2
@@ -561,6 +601,25 @@ func cmdRun(args []string) int {
 	trouble := ""
 	for k, pr := range procs {
 		werr := pr.cmd.Wait()
+		if ee, ok := werr.(*exec.ExitError); ok && ee.ExitCode() == 66 {
+			// the race detector stopped this worker
+			cur, _ := os.ReadFile(pr.out + ".cur")
+			runIdx, _ := strconv.Atoi(strings.TrimSpace(string(cur)))
+			logs, _ := filepath.Glob(filepath.Join(tmp, fmt.Sprintf("race%d.*", k)))
+			raceLog := ""
+			for _, l := range logs {
+				b, _ := os.ReadFile(l)
+				raceLog += string(b)
+			}
+			if len(raceLog) > 6000 {
+				raceLog = raceLog[:6000]
+			}
+			site := raceSite(raceLog)
+			v := props.Violation{Prop: outProp, Oracle: "data-race", Culprit: site, Expected: "no data race", Observed: "race detector report", Where: fmt.Sprintf("run %d", runIdx)}
+			total.Violations = append(total.Violations, replayFile{Property: *prop, Tier: *tierS, VerifSeed: *seed, Run: runIdx, Signature: v.Sig(), Violation: v, FromSeed: true, RaceLog: raceLog})
+			total.RawViol++
+			continue
+		}
 		data, rerr := os.ReadFile(pr.out)
 		if rerr != nil {
 			trouble = fmt.Sprintf("worker %d produced no output (%v, %v)", k, werr, rerr)
@@ -637,13 +696,13 @@ func cmdRun(args []string) int {
 		}
 		fmt.Printf("violation: %s\n  where:    %s\n  expected: %s\n  observed: %s\n  tree:     %s\n  cluster:  %v routes: %v faults: %v\n",
 			s, rf.Violation.Where, rf.Violation.Expected, rf.Violation.Observed, rf.Desc.Tree, rf.Desc.Cluster, rf.Desc.Routes, rf.Desc.Faults)
-		fmt.Printf("VIOLATION property=%s replay=%s\n", *prop, path)
+		fmt.Printf("VIOLATION property=%s replay=%s\n", outProp, path)
 		exit = 1
 	}
 	var knownLines []string
 	for i := range known {
 		k := &known[i]
-		if k.Status != "known" || k.Property != *prop {
+		if k.Status != "known" || k.Property != outProp {
 			continue
 		}
 		hits := total.KnownHits[k.key()]
@@ -669,7 +728,16 @@ func cmdRun(args []string) int {
 		if wall > 0 {
 			perHour = float64(total.Evaluations) / wall * 3600
 		}
-		ev := evidence{PropertyID: *prop, Tier: *tierS, Seed: int64(*seed), Level: *level, WallS: wall, Violations: len(sigs),
+		var extraEv interface{}
+		if *extra != "" {
+			if b, err := os.ReadFile(*extra); err == nil {
+				var x map[string]interface{}
+				if json.Unmarshal(b, &x) == nil {
+					extraEv = x
+				}
+			}
+		}
+		ev := evidence{PropertyID: outProp, Tier: *tierS, Seed: int64(*seed), Level: *level, WallS: wall, Violations: len(sigs),
 			Coverage: map[string]interface{}{
 				"evaluations":         total.Evaluations,
 				"distinct_nontrivial": len(keys),
@@ -691,6 +759,8 @@ func cmdRun(args []string) int {
 				"raw_violations_seen":   total.RawViol,
 				"known_findings_hit":    knownLines,
 				"workers":               *workers,
+				"race_build":            raceEnabled,
+				"companion_layer":       extraEv,
 				"enumerated_cases":      enumN,
 				"exhaustive":            false,
 				"components": map[string]string{
